@@ -114,11 +114,42 @@ let run_h args =
   Buffer.add_string buf ("share " ^ String.concat "," (List.map string_of_int renum));
   Buffer.contents buf
 
+(* `I <backend> <ops>`: intern / resolve / raw-key sequences *)
+let two32m1 = n_of_int 4294967295
+let backend_key = function
+  | "m" -> MiniSpur | "c" -> MicroSpur | "r" | "h" -> Spur | _ -> TokenKeyAsLasso
+let run_i args =
+  let kty = backend_key (List.hd args) in
+  let cap = match List.hd args with "u" -> n_of_int 4294967295 | _ -> lasso_cap kty in
+  let strs = ref [] in
+  let out = List.map (fun op ->
+      let c = op.[0] and rest = String.sub op 1 (String.length op - 1) in
+      match c with
+      | 'i' | 'j' ->
+        (match intern_c cap !strs (parse_text rest) with
+         | Some (k, s') -> strs := s'; string_of_int (int_of_n k)
+         | None -> "E")
+      | 'r' ->
+        (match try_from_u32 (n_of_int (int_of_string rest)) with
+         | None -> "x"
+         | Some inner ->
+           (match (if List.hd args = "u" then Some (into_u32 inner) else to_lasso kty inner) with
+            | None -> "-"
+            | Some i -> (match resolve !strs i with Some t -> "=" ^ show_text t | None -> "-")))
+      | 'k' ->
+        (match try_from_u32 (n_of_int (int_of_string rest)) with
+         | None -> "x"
+         | Some inner -> "k" ^ string_of_int (int_of_n (into_u32 inner)))
+      | _ -> failwith ("bad intern op " ^ op)) (List.tl args) in
+  String.concat " " out
+
 let run_line line =
   match List.filter (fun s -> s <> "") (String.split_on_char ' ' line) with
   | [] -> ""
   | "B" :: args -> run_b args
   | "H" :: args -> run_h args
+  | "I" :: args -> run_i args
+  | "P" :: _ -> "ok"
   | "L" :: args -> run_h args ^ " || leak 0"
   | k :: _ -> "?unknown-case-kind " ^ k
 
